@@ -411,9 +411,22 @@ def call_text(cal: Callable_, shape: dict) -> str:
     return ", ".join([x.src for x in pos] + [f"{k}={v.src}" for k, v in kws])
 
 
-def script(cal: Callable_, shape: dict) -> str:
+def primed(cal: Callable_) -> bool:
+    """Calls that can be put into a block behind a priming call of the same method (statement-form device methods)."""
+    return cal.form not in ("ctor", "expr") and "." in cal.cid and len(cal.params) > 0
+
+
+def script(cal: Callable_, shape: dict, ctxv: int = 0) -> str:
+    """ctxv = 0: the call alone at file scope.  ctxv = 1 (device-method statements only): inside the main loop, directly
+    after a PRIMING call of the same method that passes every parameter by keyword - what one statement binds must not
+    depend on the statement before it (an omitted argument takes its default, not the previous call's value)."""
     args = call_text(cal, shape)
     lines = [cal.imp]
+    if ctxv == 1 and primed(cal):
+        m = cal.cid.split(".")[1]
+        full = ", ".join(f"{p.name}={cal.lits[i].src}" for i, p in enumerate(cal.params))
+        lines += [cal.decl, "while True:", f"    d.{m}({full})", f"    d.{m}({args})"]
+        return "\n".join(lines) + "\n"
     if cal.form == "ctor":
         lines.append(f"d = {cal.cid}({args})")
     elif "." in cal.cid:
@@ -497,10 +510,10 @@ def _find(prog, cls: str, name: str | None):
             if type(x).__name__ == cls and (name is None or getattr(x, "name", None) == name)]
 
 
-def transpile(cal: Callable_, shape: dict) -> dict:
+def transpile(cal: Callable_, shape: dict, ctxv: int = 0) -> dict:
     """Run the real parser on the minimal script; locate the IR node; read the fields."""
     from Reduino.transpile.parser import parse
-    src = script(cal, shape)
+    src = script(cal, shape, ctxv)
     n = len(cal.params)
     try:
         prog = parse(src)
@@ -516,6 +529,10 @@ def transpile(cal: Callable_, shape: dict) -> dict:
         raw = {} if _find(prog, "VarAssign", "v") else None
     else:
         hit = _find(prog, cal.node, None if cal.node == "Sleep" else "d")
+        if ctxv == 1 and primed(cal):
+            if len(hit) == 1:      # the priming call itself was refused or dropped: this context says nothing about the call
+                return {"st": "unprimed", "obs": [UNOBSERVED] * n}
+            hit = hit[1:]          # the node of the call under test follows the node of the priming call
         if len(hit) > 1:
             return {"st": "accepted", "obs": [OTHER] * n, "raw": {"<nodes>": len(hit)}}
         raw = {p: getattr(hit[0], f) for p, f in cal.fields.items()} if hit else None
@@ -526,11 +543,11 @@ def transpile(cal: Callable_, shape: dict) -> dict:
             "raw": {k: (v if isinstance(v, (int, float, str, bool, type(None))) else repr(v)) for k, v in raw.items()}}
 
 
-def record(cal_index: int, shape: dict, rid: str, *, impl: bool = True) -> dict:
+def record(cal_index: int, shape: dict, rid: str, *, impl: bool = True, ctxv: int = 0) -> dict:
     cal = callables()[cal_index]
     r = {"id": rid, "c": cal_index + 1, "np": shape["np"], "kw": list(shape["kw"]), "ref": reference(cal, shape)}
     if impl:
-        t = transpile(cal, shape)
+        t = transpile(cal, shape, ctxv)
     else:
         t = {"st": "none", "obs": [UNOBSERVED] * len(cal.params)}
     r["dbg"] = {k: t[k] for k in ("exc", "msg", "raw") if k in t}
@@ -541,13 +558,15 @@ def record(cal_index: int, shape: dict, rid: str, *, impl: bool = True) -> dict:
 
 
 def _record_job(job):
+    if len(job) == 4:
+        return record(job[0], job[1], job[2], ctxv=job[3])
     return record(*job)
 
 
 def records(jobs: list[tuple], workers: int = 8) -> list[dict]:
     """jobs: [(callable index, shape, id)...] -> records, computed in a process pool."""
     if len(jobs) < 400 or workers <= 1:
-        return [record(*j) for j in jobs]
+        return [_record_job(j) for j in jobs]
     import concurrent.futures as cf
     with cf.ProcessPoolExecutor(max_workers=workers) as ex:
         return list(ex.map(_record_job, jobs, chunksize=256))
